@@ -279,10 +279,10 @@ class Source:
         e = rl.match_close(m, b)
         return s, self.text[at:b], b, e
 
-    def find_item(self, kind, name):
+    def find_item(self, kind, name, depth=0):
         rx = {"enum": r"\benum\s+%s\b", "struct": r"\bstruct\s+%s\b", "const": r"\bconst\s+%s\b",
               "type": r"\btype\s+%s\b", "static": r"\bstatic\s+%s\b"}[kind] % re.escape(name)
-        cands = [mt.start() for mt in re.finditer(rx, self.mask) if rl.depth_at(self.mask, mt.start()) == 0]
+        cands = [mt.start() for mt in re.finditer(rx, self.mask) if rl.depth_at(self.mask, mt.start()) == depth]
         if len(cands) != 1:
             raise Undecided("%s %s: %d candidates in %s" % (kind, name, len(cands), self.rel))
         at = cands[0]
@@ -692,7 +692,7 @@ def build(unit_path, mode="verify"):
         if d[0] == "item":
             _, sk, kind, name, opts = d
             s = srcs[sk]
-            a, e = s.find_item(kind, name)
+            a, e = s.find_item(kind, name, int(opts.get("depth", 0)))
             body = s.text[a:e]
             attrs = s.attrs_before(a)
             derive = None
@@ -755,6 +755,7 @@ def build(unit_path, mode="verify"):
                 for (qual, fname, sig, body, orig, rel) in fn_texts:
                     self_emit_fn(em, res, u, rw, qual, sig, body, orig, rel, {}, mode, diffs, indent="")
             else:
+                impl_head = rw.apply("impl:" + _impl_type_name(impl_head), impl_head)
                 ih = _norm(impl_head) if keep_trait else _emit_impl_header(impl_head)
                 em.add(ih + " {")
                 if keep_trait:
